@@ -386,3 +386,33 @@ def empty_member_grid_cases(ctx, every=1):
                             except Exception:
                                 ctx.stats['empty-member-grid-unbuildable'] += 1
     return out
+
+
+def long_string_cases(ctx, every=1):
+    """Strings longer than one or two CER segments (1000 contents octets; BIT STRING 999 octets of bits per segment) in
+    the content shapes that matter to whoever cuts or re-assembles them: all zeros, a first segment of zeros then ones,
+    ones then a last segment of zeros, a lone 1 bit right before / after the segment boundary; plain and under one tag."""
+    shapes = []
+    for nbits in (8000, 16000):
+        z = [0] * nbits
+        shapes.append(('bits all zero %d' % nbits, ('bits',), ('bits', tuple(z))))
+        b = list(z); b[-8:] = [1] * 8; shapes.append(('bits zeros then ones %d' % nbits, ('bits',), ('bits', tuple(b))))
+        b = list(z); b[:8] = [1] * 8; shapes.append(('bits ones then zeros %d' % nbits, ('bits',), ('bits', tuple(b))))
+        for pos in (7991, 7992):
+            b = list(z); b[pos] = 1; shapes.append(('bits lone 1 at %d of %d' % (pos, nbits), ('bits',), ('bits', tuple(b))))
+    for n in (2500,):
+        shapes.append(('octs all zero', ('octs',), ('o', b'\x00' * n)))
+        shapes.append(('octs zeros then data', ('octs',), ('o', b'\x00' * 1000 + b'\x01' * (n - 1000))))
+        shapes.append(('octs data then zeros', ('octs',), ('o', b'\x01' * 1000 + b'\x00' * (n - 1000))))
+        shapes.append(('UTF8String long', ('str', 'UTF8String'), ('chars', 'ab' * (n // 2))))
+    out = []
+    for i, (what, T, v) in enumerate(shapes):
+        if every > 1 and (i + ctx.seed) % every:
+            continue
+        for TT in (T, ('imp', (128, 0, 3), T), ('seq', [('opt', ('int',)), ('req', ('exp', (64, 0, 31), T))])):
+            vv = v if TT[0] != 'seq' else ('rec', [None, v])
+            try:
+                out.append(Case(TT, vv)); ctx.stats['long-string:' + what.split(' ')[0]] += 1
+            except Exception:
+                ctx.stats['long-string-unbuildable'] += 1
+    return out
